@@ -25,6 +25,7 @@ func init() {
 	reg.Register("c19.tags", "C19", tagsWL)
 	reg.Register("c19.cmacstream", "C19", cmacStreamWL)
 	reg.Register("c19.inject", "C19", injectWL)
+	reg.Register("c19.buffers", "C19", buffersWL)
 }
 
 // a cipher family: how the library side and the reference side build a block from a key
@@ -80,78 +81,95 @@ type instance struct {
 	keys mac.Keys
 }
 
-// build constructs scheme s for family f with fresh random keys from r.
-func build(s int, f family, ps padSel, size int, r *mon.Rand) (inst instance, err *mon.PanicInfo) {
-	k1, k2 := r.Bytes(f.keyLen), r.Bytes(f.keyLen)
-	if f.name == "des" || f.name == "3des" {
-		// keep them valid whatever the parity rules: stdlib does not check parity
-	}
+// refKeys derives the reference side of scheme s from key VALUES (private copies the
+// library never sees). ok is false where the scheme cannot be keyed with this family
+// (LMAC derives keys one block long).
+func refKeys(s int, f family, k1, k2 []byte) (keys mac.Keys, ok bool) {
+	k1, k2 = append([]byte{}, k1...), append([]byte{}, k2...)
 	switch s {
 	case mac.CBCMAC, mac.CMAC, mac.TrCBC, mac.CBCR:
-		inst.keys = mac.Keys{B: f.ref(k1)}
+		keys = mac.Keys{B: f.ref(k1)}
 	case mac.EMAC, mac.ANSIRetail:
-		inst.keys = mac.Keys{B: f.ref(k1), B2: f.ref(k2)}
+		keys = mac.Keys{B: f.ref(k1), B2: f.ref(k2)}
 	case mac.MacDES:
 		k3 := make([]byte, len(k2))
 		for i := range k3 {
 			k3[i] = k2[i] ^ 0xf0
 		}
-		inst.keys = mac.Keys{B: f.ref(k1), B2: f.ref(k2), B3: f.ref(k3)}
+		keys = mac.Keys{B: f.ref(k1), B2: f.ref(k2), B3: f.ref(k3)}
 	case mac.LMAC:
+		if f.bs != f.keyLen {
+			// derived keys are one block long: only families whose key is one block can run LMAC
+			return keys, false
+		}
 		b := f.ref(k1)
 		l1, l2 := make([]byte, f.bs), make([]byte, f.bs)
 		l1[f.bs-1], l2[f.bs-1] = 1, 2
 		b.Encrypt(l1, l1)
 		b.Encrypt(l2, l2)
-		if len(l1) != f.keyLen {
-			// derived keys are one block long: only families whose key is one block can run LMAC
-			return inst, &mon.PanicInfo{Value: "skip"}
+		keys = mac.Keys{B: f.ref(l1), B2: f.ref(l2)}
+	}
+	return keys, true
+}
+
+// construct calls the library constructor of scheme s with the caller's key slices k1, k2
+// exactly as given (no copies); lb is the block the caller made for the schemes that take
+// one. Panics of the library propagate.
+func construct(s int, f family, ps padSel, size int, lb cipher.Block, k1, k2 []byte) cbcmac.BlockCipherMAC {
+	switch s {
+	case mac.CBCMAC:
+		if ps.lib == nil {
+			return cbcmac.NewCBCMAC(lb, size)
 		}
-		inst.keys = mac.Keys{B: f.ref(l1), B2: f.ref(l2)}
+		return cbcmac.NewCBCMACWithPadding(lb, size, ps.lib)
+	case mac.EMAC:
+		if ps.lib == nil {
+			return cbcmac.NewEMAC(f.lib, k1, k2, size)
+		}
+		return cbcmac.NewEMACWithPadding(f.lib, k1, k2, size, ps.lib)
+	case mac.ANSIRetail:
+		if ps.lib == nil {
+			return cbcmac.NewANSIRetailMAC(f.lib, k1, k2, size)
+		}
+		return cbcmac.NewANSIRetailMACWithPadding(f.lib, k1, k2, size, ps.lib)
+	case mac.MacDES:
+		if ps.lib == nil {
+			return cbcmac.NewMACDES(f.lib, k1, k2, size)
+		}
+		return cbcmac.NewMACDESWithPadding(f.lib, k1, k2, size, ps.lib)
+	case mac.CMAC:
+		return cbcmac.NewCMAC(lb, size)
+	case mac.LMAC:
+		if ps.lib == nil {
+			return cbcmac.NewLMAC(f.lib, k1, size)
+		}
+		return cbcmac.NewLMACWithPadding(f.lib, k1, size, ps.lib)
+	case mac.TrCBC:
+		return cbcmac.NewTRCBCMAC(lb, size)
+	case mac.CBCR:
+		return cbcmac.NewCBCRMAC(lb, size)
+	}
+	panic("c19: unknown scheme")
+}
+
+// libBlock makes the library-side block cipher from the caller's key slice.
+func libBlock(f family, k []byte) cipher.Block {
+	lb, e := f.lib(k)
+	if e != nil {
+		panic(e)
+	}
+	return lb
+}
+
+// build constructs scheme s for family f with fresh random keys from r.
+func build(s int, f family, ps padSel, size int, r *mon.Rand) (inst instance, err *mon.PanicInfo) {
+	k1, k2 := r.Bytes(f.keyLen), r.Bytes(f.keyLen)
+	var ok bool
+	if inst.keys, ok = refKeys(s, f, k1, k2); !ok {
+		return inst, &mon.PanicInfo{Value: "skip"}
 	}
 	err = mon.Try(func() {
-		lb, e := f.lib(k1)
-		if e != nil {
-			panic(e)
-		}
-		switch s {
-		case mac.CBCMAC:
-			if ps.lib == nil {
-				inst.lib = cbcmac.NewCBCMAC(lb, size)
-			} else {
-				inst.lib = cbcmac.NewCBCMACWithPadding(lb, size, ps.lib)
-			}
-		case mac.EMAC:
-			if ps.lib == nil {
-				inst.lib = cbcmac.NewEMAC(f.lib, k1, k2, size)
-			} else {
-				inst.lib = cbcmac.NewEMACWithPadding(f.lib, k1, k2, size, ps.lib)
-			}
-		case mac.ANSIRetail:
-			if ps.lib == nil {
-				inst.lib = cbcmac.NewANSIRetailMAC(f.lib, k1, k2, size)
-			} else {
-				inst.lib = cbcmac.NewANSIRetailMACWithPadding(f.lib, k1, k2, size, ps.lib)
-			}
-		case mac.MacDES:
-			if ps.lib == nil {
-				inst.lib = cbcmac.NewMACDES(f.lib, k1, k2, size)
-			} else {
-				inst.lib = cbcmac.NewMACDESWithPadding(f.lib, k1, k2, size, ps.lib)
-			}
-		case mac.CMAC:
-			inst.lib = cbcmac.NewCMAC(lb, size)
-		case mac.LMAC:
-			if ps.lib == nil {
-				inst.lib = cbcmac.NewLMAC(f.lib, k1, size)
-			} else {
-				inst.lib = cbcmac.NewLMACWithPadding(f.lib, k1, size, ps.lib)
-			}
-		case mac.TrCBC:
-			inst.lib = cbcmac.NewTRCBCMAC(lb, size)
-		case mac.CBCR:
-			inst.lib = cbcmac.NewCBCRMAC(lb, size)
-		}
+		inst.lib = construct(s, f, ps, size, libBlock(f, k1), k1, k2)
 	})
 	return
 }
@@ -163,11 +181,17 @@ func hasPadding(s int) bool {
 // judge compares one library tag with the reference; the CBCR defect model is the
 // only thing routed to a known finding.
 func judge(c *mon.Case, what string, s int, inst instance, ps padSel, msg, got []byte, size int) bool {
+	return judgeF(c, func() string { return what }, s, inst, ps, msg, got, size)
+}
+
+// judgeF is judge with the description built only when it is needed.
+func judgeF(c *mon.Case, whatf func() string, s int, inst instance, ps padSel, msg, got []byte, size int) bool {
 	want := mac.Tag(s, inst.keys, ps.ref, msg, size)
 	c.Event("compare", 1)
 	if bytes.Equal(got, want) {
 		return true
 	}
+	what := whatf()
 	if s == mac.CBCR && (len(msg) == 0 || len(msg)%inst.keys.B.BlockSize() != 0) {
 		if t, dropped := mac.CBCRShiftModel(inst.keys, msg); dropped && bytes.Equal(got, t[:size]) {
 			c.Known("cbcr-shift-not-rotate", "mismatch", "%s: CBCR on a padded %d-byte message returns the shift-not-rotate value %x instead of %x", what, len(msg), got, want)
@@ -218,22 +242,87 @@ func tagsWL(x *mon.Ctx) {
 			}
 		}
 	}
-	// invalid sizes are refused by the constructors (documented panic)
+	// invalid sizes are refused by the constructors (documented panic); a refused call leaves
+	// the caller's key slices as they were and a following valid call on the same slices is
+	// unaffected. Both entry points (default padding and WithPadding) are driven.
 	for s := mac.CBCMAC; s <= mac.CBCR; s++ {
 		for _, f := range families {
-			c := x.Begin("ctor scheme=%s cipher=%s invalid sizes", mac.Names[s], f.name)
-			if c == nil {
-				continue
-			}
-			c.Class("ctor/%s/%s", mac.Names[s], f.name)
-			for _, size := range []int{0, -1, f.bs + 1} {
-				if _, p := build(s, f, pads[0], size, c.R); p == nil {
-					c.Fail("accept", "constructor accepted tag size %d for a %d-byte block", size, f.bs)
+			for _, ps := range pads[:2] {
+				if !hasPadding(s) && ps.name != "default" {
+					continue
 				}
+				c := x.Begin("ctor scheme=%s cipher=%s pad=%s invalid sizes", mac.Names[s], f.name, ps.name)
+				if c == nil {
+					continue
+				}
+				c.Class("ctor/%s/%s/%s", mac.Names[s], f.name, ps.name)
+				refusedCtor(c, s, f, ps)
+				c.End()
 			}
-			c.End()
 		}
 	}
+	// method 3 puts the bit length into the first block: lengths around the point where the
+	// length needs a third byte (65536 bits), for every construction with a selectable padding
+	for s := mac.CBCMAC; s <= mac.CBCR; s++ {
+		for _, f := range []family{families[0], families[2]} { // one 16-byte and one 8-byte block
+			for _, ps := range pads[2:] {
+				for _, n := range []int{8191, 8192, 8193} {
+					if !hasPadding(s) {
+						continue
+					}
+					c := x.Begin("tags scheme=%s cipher=%s pad=%s len=%d size=%d", mac.Names[s], f.name, ps.name, n, f.bs)
+					if c == nil {
+						continue
+					}
+					c.Class("tags/%s/%s/%s/long%+d/sizefull", mac.Names[s], f.name, ps.name, n-8192)
+					oneTag(c, s, f, ps, n, f.bs)
+					c.End()
+				}
+			}
+		}
+	}
+}
+
+func refusedCtor(c *mon.Case, s int, f family, ps padSel) {
+	k1v, k2v := c.R.Bytes(f.keyLen), c.R.Bytes(f.keyLen)
+	keys, ok := refKeys(s, f, k1v, k2v)
+	if !ok {
+		c.Trivial()
+		return
+	}
+	K1, K2 := place(c.R, nil, k1v, plSpare, f.keyLen), place(c.R, nil, k2v, plSpare, f.keyLen)
+	lb := libBlock(f, K1.s)
+	for _, size := range []int{0, -1, f.bs + 1} {
+		if p := mon.Try(func() { construct(s, f, ps, size, lb, K1.s, K2.s) }); p == nil {
+			c.Fail("accept", "constructor accepted tag size %d for a %d-byte block", size, f.bs)
+		}
+		what := fmt.Sprintf("refused constructor (size %d)", size)
+		K1.check(c, what, "key1")
+		K2.check(c, what, "key2")
+	}
+	inst := instance{keys: keys}
+	size := c.R.Range(1, f.bs)
+	if !c.Call("constructor after refused calls", func() { inst.lib = construct(s, f, ps, size, lb, K1.s, K2.s) }) {
+		return
+	}
+	msg := c.R.Bytes(c.R.Intn(3 * f.bs))
+	var t []byte
+	if c.Call("MAC", func() { t = inst.lib.MAC(append([]byte{}, msg...)) }) {
+		judge(c, "MAC on an object built after refused constructor calls", s, inst, ps, msg, t, size)
+	}
+}
+
+// roomClass: spare capacity of a Sum destination relative to the tag size.
+func roomClass(spare, size int) string {
+	switch {
+	case spare == 0:
+		return "none"
+	case spare < size:
+		return "short"
+	case spare == size:
+		return "exact"
+	}
+	return "more"
 }
 
 func sizeClass(size, bs int) string {
@@ -306,6 +395,7 @@ func oneTag(c *mon.Case, s int, f family, ps padSel, n, size int) {
 // reuse after Reset and after MAC must give the one-shot value.
 func cmacStreamWL(x *mon.Ctx) {
 	selftest(x)
+	gw, gs := mon.NewGuard(4096), mon.NewGuard(4096)
 	for i := 0; i < x.Scale(6000, 150000); i++ {
 		c := x.Begin("cmacstream #%d", i)
 		if c == nil {
@@ -330,6 +420,9 @@ func cmacStreamWL(x *mon.Ctx) {
 			Size() int
 			BlockSize() int
 		})
+		if got := h.BlockSize(); got != f.bs {
+			c.Fail("mismatch", "CMAC BlockSize() = %d over a cipher with %d-byte blocks", got, f.bs)
+		}
 		var model []byte
 		var ops []string
 		steps := c.R.Range(2, 14)
@@ -345,15 +438,30 @@ func cmacStreamWL(x *mon.Ctx) {
 			ops = append(ops, "Write;Reset")
 		}
 		ok := true
+		guardedChunk := false
 		for sidx := 0; sidx < steps && ok; sidx++ {
 			switch op := c.R.Intn(8); {
 			case op < 5:
 				n := []int{0, 1, f.bs - 1, f.bs, f.bs + 1, 2 * f.bs, 2*f.bs + 1, 3*f.bs - 1, c.R.Intn(70)}[c.R.Intn(9)]
-				p := c.R.Bytes(n)
-				ops = append(ops, fmt.Sprintf("Write(%d)", n))
-				c.Class("cmac/%s/write/nx=%s/len=%s", f.name, lenClass(len(model), f.bs), lenClass(n, f.bs))
-				c.Call("Write", func() { h.Write(p) })
-				model = append(model, p...)
+				// the chunk lies in the caller's read buffer (any placement), which is reused
+				// for other data as soon as Write has returned
+				pl := c.R.Intn(nPlace)
+				P := place(c.R, gw, c.R.Bytes(n), pl, c.R.Range(1, 2*f.bs))
+				ops = append(ops, fmt.Sprintf("Write(%d,%s)", n, placeNames[pl]))
+				c.Class("cmac/%s/write/nx=%s/len=%s/%s", f.name, lenClass(len(model), f.bs), lenClass(n, f.bs), placeNames[pl])
+				var wn int
+				var werr error
+				if !c.Call("Write", func() { wn, werr = h.Write(P.s) }) {
+					ok = false
+					continue
+				}
+				if wn != n || werr != nil {
+					c.Fail("mismatch", "Write of %d bytes returned (%d, %v) after %v", n, wn, werr, ops)
+				}
+				P.checkv(c, "Write", "chunk", false) // canaries of gw: once, at the end of the case
+				guardedChunk = guardedChunk || P.g != nil
+				model = append(model, P.s...)
+				P.scribble(c.R)
 			case op < 7:
 				ops = append(ops, "Sum")
 				c.Class("cmac/%s/sum/nx=%s", f.name, lenClass(len(model), f.bs))
@@ -363,15 +471,38 @@ func cmacStreamWL(x *mon.Ctx) {
 				h.Reset()
 				model = model[:0]
 			}
+			// Sum appends to the caller's slice: prefix of 0-3 bytes, spare capacity one short
+			// of the tag, exactly the tag (in place, ending at a guard page), more, none
+			prefix := c.R.Bytes(c.R.Intn(4))
+			spare := []int{0, size - 1, size, size + 1, f.bs, 2*f.bs + 3}[c.R.Intn(6)]
+			pl := []int{plSpare, plSpare, plSpare, plGuardSpare}[c.R.Intn(4)]
+			IN := place(c.R, gs, prefix, pl, spare)
+			c.Class("cmac/%s/sum-dst/%s/room=%s", f.name, placeNames[pl], roomClass(spare, size))
 			var a, b []byte
-			if !c.Call("Sum", func() { a = h.Sum([]byte{9}); b = h.Sum(nil) }) {
+			if !c.Call("Sum", func() { a = h.Sum(IN.s); b = h.Sum(nil) }) {
 				break
 			}
-			if len(a) != size+1 || a[0] != 9 || !bytes.Equal(a[1:], b) {
-				c.Fail("mismatch", "Sum(prefix)/Sum(nil) inconsistent after %v: %x / %x", ops, a, b)
+			if !bytes.Equal(IN.full[:len(prefix)], prefix) {
+				c.Fail("mismatch", "Sum modified the %d bytes already in the caller's slice: %x -> %x", len(prefix), prefix, IN.full[:len(prefix)])
 				ok = false
 			}
-			ok = judge(c, fmt.Sprintf("Sum after %v", ops), mac.CMAC, inst, pads[0], model, b, size) && ok
+			if spare > size && !bytes.Equal(IN.full[len(prefix)+size:], IN.snap[len(prefix)+size:]) {
+				c.Event("sum_wrote_behind_the_tag", 1) // observation only
+			}
+			if IN.g != nil && !c.CheckGuards("Sum", IN.g) {
+				ok = false
+			}
+			if len(a) != len(prefix)+size || !bytes.Equal(a[:len(prefix)], prefix) || !bytes.Equal(a[len(prefix):], b) {
+				c.Fail("mismatch", "Sum(%x with %d spare)/Sum(nil) inconsistent after %v: %x / %x", prefix, spare, ops, a, b)
+				ok = false
+			}
+			ok = judgeF(c, func() string { return fmt.Sprintf("Sum after %v", ops) }, mac.CMAC, inst, pads[0], model, b, size) && ok
+			// what Sum returned is the caller's: overwriting it must not reach the object
+			dirt(c.R, a[:cap(a)])
+			dirt(c.R, b[:cap(b)])
+		}
+		if guardedChunk {
+			c.CheckGuards("the Write calls of the case", gw)
 		}
 		c.Detail("ops", ops)
 		c.Event("history_steps", len(ops))
